@@ -234,6 +234,31 @@ func streamDyn(seed uint64, n int) (*Summary, error) {
 			return "Slice(Pre(Struct))", z.Slice(z.Preprocess(pass, dynSchema())).Parse([]any{v}, &d)
 		},
 	)
+	// slice-level tests over element types Go cannot compare with == (lists of lists, structs holding slices)
+	type dTagged struct {
+		Name string
+		Tags []string
+	}
+	prims = append(prims,
+		func(v any) (string, any) {
+			var d [][]string
+			return "Slice(Slice).Contains", z.Slice(z.Slice(z.String())).Contains([]string{"dev"}).Min(1).Parse(v, &d)
+		},
+		func(v any) (string, any) {
+			var d [][]string
+			return "Slice(Slice).Contains in a list", z.Slice(z.Slice(z.String())).Contains([]string{"dev"}).Parse([]any{v, []any{"dev"}, []any{}}, &d)
+		},
+		func(v any) (string, any) {
+			var d []dTagged
+			s := z.Slice(z.Struct(z.Schema{"name": z.String(), "tags": z.Slice(z.String())})).Contains(dTagged{Name: "owner", Tags: []string{"x"}})
+			return "Slice(Struct).Contains", s.Parse([]any{v, map[string]any{"name": "owner", "tags": []any{"x"}}, map[string]any{"name": "guest"}}, &d)
+		},
+		func(v any) (string, any) {
+			var d []*dTagged
+			s := z.Slice(z.Ptr(z.Struct(z.Schema{"name": z.String(), "tags": z.Slice(z.String())}))).Contains(&dTagged{Name: "owner"})
+			return "Slice(Ptr(Struct)).Contains", s.Parse([]any{v, map[string]any{"name": "owner"}}, &d)
+		},
+	)
 	schemaPre := dynSchemaPre()
 	guard := func(what string, f func()) {
 		sum.Evaluations++
